@@ -158,9 +158,17 @@ def panicked(err):
 PRIOR = ["absent", "same", "stale", "garbage", "noncompiling", "longstale", "dir"]
 
 
-def c17_case(rng, ws, case_no):
+# invocations every run starts with: several packages with output under each option (the random cases reach a
+# particular combination of option and package mix only now and then)
+C17_SCRIPTED = [("gen-header", "AAA"), ("gen-header", "AEAA"), ("gen-prefix", "AA"), ("gen", "ARA"), ("diff-header", "AA"),
+                ("gen-tags", "AE"), ("gen-default", "AUA"), ("diff", "RA"), ("gen-header", "ANRA"), ("diff", "AR")]
+
+
+def c17_case(rng, ws, case_no, force=None):
     """build one invocation; returns dict with everything needed to run and to predict"""
     n = rng.randint(1, 4)
+    if force:
+        n = len(force[1])
     for d in os.listdir(ws.root):
         if d.startswith("pk"):
             shutil.rmtree(ws.root + "/" + d)
@@ -169,9 +177,13 @@ def c17_case(rng, ws, case_no):
         kind = rng.choice(["A", "A", "E", "R", "U", "N"])
         if rng.random() < 0.05:
             kind = "X"
+        if force:
+            kind = force[1][i]
         pkgs.append({"dir": "pk%d" % i, "kind": kind, "k": rng.randint(0, 3)})
     cmd = rng.choice(["gen", "gen", "gen-default", "gen-header", "gen-header-missing", "gen-prefix", "gen-tags",
                       "diff", "diff", "diff-header", "diff-header-missing", "check", "show"])
+    if force:
+        cmd = force[0]
     opts, sub = [], "gen"
     hdr_ok = True
     if cmd.startswith("diff"):
@@ -276,13 +288,13 @@ def run_c17(rep, tier):
     from .e2e_check import model_replies
     rng = random.Random(seed() * 31 + 17)
     ws = Workspace()
-    n = 45 if tier == "quick" else 500
+    n = 50 if tier == "quick" else 500
     dis, fails = [], []
     stats = {}
     try:
         cases = []
         for i in range(n):
-            case = c17_case(rng, ws, i)
+            case = c17_case(rng, ws, i, C17_SCRIPTED[i] if i < len(C17_SCRIPTED) else None)
             before = ws.snapshot()
             rc, out, err = ws.wire(case["argv"])
             after_snap = ws.snapshot()
